@@ -93,6 +93,10 @@ class Harness(Exception):
     pass
 
 
+# known-finding id + matched signature -> number of violating runs (evidence)
+KNOWN_SEEN = collections.Counter()
+
+
 def _run_engine(prop, engine, tier, seed, nb, bs, params):
     eng = _engine(engine)
     specs = fleet.plan_batches(engine, tier, seed, nb, bs, params)
@@ -227,6 +231,7 @@ def triage(prop, engine, eng, viol_rows, seed, tier, minimise=True, tag=""):
         if e is not None:
             n_known += 1
             ktag = e.get("id") or e.get("signature")
+            KNOWN_SEEN[ktag + " <- " + v["signature"]] += 1
             if ktag not in printed_known:
                 printed_known.add(ktag)
                 lines.append("KNOWN-FINDING: property=%s %s [id=%s, e.g. signature=%s, first seed=%d]" % (
@@ -345,6 +350,7 @@ def main_check(prop, tier, seed):
                 n_new += nn
                 n_known += nk
             cov["violating_runs_known"] = n_known
+            cov["known_findings_matched"] = dict(sorted(KNOWN_SEEN.items()))
             cov["violating_runs_new"] = n_new
     except Harness as h:
         print("HARNESS-ERROR: %s" % h)
